@@ -328,6 +328,38 @@ def gen_vals(rng, n, dtype):
     return out
 
 
+def safe_clock(ctx, case, sys_, i, ev):
+    """the clock as a python int, or None after recording a failing input: `.systime` must be a 0-dim int64 tensor
+    (whatever the implementation did to it, this never raises)"""
+    try:
+        st = sys_.systime
+        if not isinstance(st, torch.Tensor) or st.ndim != 0 or st.dtype != torch.int64:
+            ctx.fail({**pub(case), "at": i}, f"clock-type: after event {i} ({ev}) systime is {type(st).__name__} dtype={getattr(st, 'dtype', None)} "
+                                             f"shape={tuple(getattr(st, 'shape', ()))} value={st.tolist() if isinstance(st, torch.Tensor) and st.numel() < 5 else '?'}; "
+                                             f"the system time is a 0-dim int64 counter")
+            return None
+        return int(st)
+    except Exception as ex:
+        ctx.fail({**pub(case), "at": i}, f"clock-type: reading systime after event {i} ({ev}) raised {type(ex).__name__}: {str(ex)[:100]}")
+        return None
+
+
+def guarded(ctx, case, fn, *args):
+    """run the implementation-side part of one case; an exception escaping from it is a misbehaviour of the
+    implementation on this case (the harness itself is exercised on the clean tree for every seed) — recorded as a
+    failing input, never as a crash of the check"""
+    try:
+        return fn(ctx, case, *args)
+    except common.InfraError:
+        raise
+    except Exception as ex:
+        import traceback
+        tb = traceback.format_exc()
+        ctx.fail(pub(case) if "fs" not in case else strip(case),
+                 f"impl-exception: unexpected {type(ex).__name__}: {str(ex)[:120]} while observing the implementation ({tb.strip().splitlines()[-3].strip()[:120]})")
+        return None
+
+
 def pub(case):
     """the replayable part of a case (private working keys removed)"""
     return {k: v for k, v in case.items() if not k.startswith("_")}
@@ -407,7 +439,9 @@ def run_clock_impl(ctx: Ctx, case):
     handed = []   # tensors handed to the API must never be modified
     for i, e in enumerate(case["events"]):
         ev = e["ev"]
-        before = int(sys_.systime)
+        before = safe_clock(ctx, case, sys_, i, "before " + ev)
+        if before is None:
+            return None
         try:
             if ev == "call":
                 sys_(x, u)
@@ -467,16 +501,19 @@ def run_clock_impl(ctx: Ctx, case):
                         ctx.fail({**case, "at": i}, f"refpoint-raises: {kind}.set_refpoint raised {type(ex).__name__}: {str(ex)[:80]}")
         except Exception as ex:
             ctx.fail({**case, "at": i}, f"clock-raises: event {ev} raised {type(ex).__name__}: {str(ex)[:100]}")
-        st = sys_.systime
-        now = int(st)
+        now = safe_clock(ctx, case, sys_, i, ev)
+        if now is None:
+            return None
         obs.append(now)
         integral = ev in ("call",) or (ev in ("reset", "assign", "ref") and (e.get("t") is None or float(e["t"]["v"]).is_integer()))
         # the property's own statement: a call advances by exactly one; reset/assignment set the time; nothing else moves it
         if now != expect and integral:
             ctx.fail({**case, "at": i}, f"clock-law: after event {i} ({ev}) systime={now}, the law gives {expect} (before: {before})")
         expect = now if not integral else expect
-        if not isinstance(st, torch.Tensor) or st.ndim != 0 or st.dtype != torch.int64:
-            ctx.fail({**case, "at": i}, f"clock-type: systime is {type(st).__name__} {getattr(st, 'dtype', None)} ndim={getattr(st, 'ndim', None)} after {ev}")
+        for tv, keep in handed:
+            if isinstance(tv, torch.Tensor) and (tv.shape != keep.shape or not torch.equal(tv, keep)):
+                ctx.fail({**case, "at": i}, f"mutation: a time tensor handed to reset/systime/set_refpoint earlier was modified by event {i} ({ev}): {keep.tolist()} -> {tv.tolist()}")
+                return None
     for tv, keep in handed:
         if isinstance(tv, torch.Tensor) and not torch.equal(tv, keep):
             ctx.fail(case, f"mutation: a time tensor handed to reset/systime/set_refpoint was modified later ({keep.item()} -> {tv.item()})")
@@ -491,16 +528,225 @@ def run_clock(ctx: Ctx, cases):
         if st != "ok":
             raise common.InfraError(f"model error on clock line: {rep}")
         want = [int(t) for t in toks]
-        got = run_clock_impl(ctx, case)
+        got = guarded(ctx, case, run_clock_impl)
         ncall = sum(1 for e in case["events"] if e["ev"] == "call")
         ctx.note_case(("clock", case["sys"], sig_events(case["events"])), ncall > 0)
         for e in case["events"]:
             ctx.count("clock." + case["sys"] + "." + e["ev"])
+        if got is None:
+            continue                       # a failing input was recorded; the observation was abandoned
         if got != want:
             j = next(i for i, (a, b) in enumerate(zip(got, want)) if a != b)
             ctx.disagree("clock", case, f"{case['sys']}: after event {j} ({case['events'][j]}) implementation systime {got[j]} model {want[j]}")
     if cases:
         ctx.sample({"stream": "clock", "sys": cases[0]["sys"], "events": [e["ev"] for e in cases[0]["events"]]})
+
+
+
+# ============================================================================= stream: multi (several systems, kept tensors)
+
+def gen_multi_case(seed, quick):
+    """2-3 systems; times written from literals, from int64 tensors the caller KEEPS and re-uses (0-dim and shape (1,)),
+    from another system's `.systime`; interleaved calls / resets; every system's clock must follow its own law"""
+    rng = random.Random(seed)
+    n = rng.choice([2, 2, 3])
+    systems = [rng.choice(["lti", "ltv", "nls"]) for _ in range(n)]
+    slots = [{"v": rng.choice([-2, 0, 1, 3, 7, 19, 40]), "shape": rng.choice([0, 0, 0, 1])} for _ in range(rng.randint(1, 3))]
+    evs = []
+    for _ in range(rng.randint(8, 18)):
+        sidx, c = rng.randrange(n), rng.random()
+        if c < 0.36:
+            evs.append({"s": sidx, "ev": "call"})
+        elif c < 0.40:
+            evs.append({"s": sidx, "ev": "xraise"})
+        elif c < 0.47:
+            evs.append({"s": sidx, "ev": "reset", "t": None})
+        else:
+            how = rng.choice(["assign", "assign", "reset", "ref"])
+            c2 = rng.random()
+            if c2 < 0.42:
+                src = {"slot": rng.randrange(len(slots))}
+            elif c2 < 0.80:
+                src = {"from": rng.randrange(n)}
+            else:
+                src = {"v": rng.randint(-3, 30), "as": rng.choice(["py", "int64", "int64", "int32", "float64"])}
+            evs.append({"s": sidx, "ev": how, "t": src})
+    return {"kind": "multi", "seed": seed, "systems": systems, "slots": slots, "events": evs}
+
+
+def _c(s, ev, t=None):
+    return {"s": s, "ev": ev, "t": t} if ev in ("assign", "reset", "ref") else {"s": s, "ev": ev}
+
+
+# deterministic corpus: the scenarios of seeded change C15-2 (a clock that is rebound to / shares storage with a
+# tensor of the caller or the clock of another system), run first on every run
+CORPUS = [
+    # a kept 0-dim int64 tensor is assigned, the system is stepped, the tensor is read and assigned again
+    {"systems": ["lti"], "slots": [{"v": 5, "shape": 0}],
+     "events": [_c(0, "assign", {"slot": 0}), _c(0, "call"), _c(0, "call"), _c(0, "assign", {"slot": 0}), _c(0, "call"), _c(0, "reset", None), _c(0, "call")]},
+    # b.systime = a.systime; a is stepped and reset; b must keep its own time
+    {"systems": ["lti", "lti"], "slots": [{"v": 3, "shape": 0}],
+     "events": [_c(0, "assign", {"v": 3, "as": "py"}), _c(1, "assign", {"from": 0}), _c(0, "call"), _c(0, "reset", None), _c(1, "call"), _c(0, "call"),
+                _c(0, "assign", {"from": 1}), _c(1, "reset", {"v": 9, "as": "int64"}), _c(0, "call")]},
+    # three systems written from one shared tensor, stepped and reset in interleaved order
+    {"systems": ["lti", "ltv", "nls"], "slots": [{"v": 2, "shape": 0}],
+     "events": [_c(0, "assign", {"slot": 0}), _c(1, "assign", {"slot": 0}), _c(2, "assign", {"slot": 0}), _c(0, "call"), _c(1, "call"), _c(1, "call"),
+                _c(2, "reset", {"v": 9, "as": "py"}), _c(0, "reset", None), _c(2, "call"), _c(1, "assign", {"slot": 0}), _c(1, "call")]},
+    # shape-(1,) int64 tensors: the clock stays a 0-dim counter whatever happens
+    {"systems": ["lti", "nls"], "slots": [{"v": 4, "shape": 1}],
+     "events": [_c(0, "assign", {"slot": 0}), _c(0, "call"), _c(1, "reset", {"slot": 0}), _c(1, "call"), _c(1, "assign", {"slot": 0}), _c(1, "call"), _c(0, "call")]},
+    # LTV.set_refpoint(t=<kept int64 tensor>) sets the time from the tensor's value; the tensor stays the caller's
+    {"systems": ["ltv", "ltv"], "slots": [{"v": 7, "shape": 0}, {"v": 1, "shape": 1}],
+     "events": [_c(0, "ref", {"slot": 0}), _c(0, "call"), _c(0, "call"), _c(1, "ref", {"from": 0}), _c(0, "ref", {"slot": 0}), _c(1, "call"), _c(0, "ref", {"slot": 1}),
+                _c(0, "call"), _c(1, "reset", None), _c(0, "call")]},
+    # reset(kept tensor), reset(other.systime), mixed with python ints, int32 and float tensors (always copied)
+    {"systems": ["nls", "lti", "ltv"], "slots": [{"v": 19, "shape": 0}],
+     "events": [_c(0, "reset", {"slot": 0}), _c(0, "call"), _c(1, "reset", {"from": 0}), _c(0, "call"), _c(1, "call"), _c(2, "assign", {"v": 6, "as": "int32"}),
+                _c(2, "call"), _c(1, "assign", {"from": 2}), _c(2, "assign", {"v": 2.5, "as": "float64"}), _c(1, "call"), _c(2, "call"), _c(0, "assign", {"from": 0}), _c(0, "call")]},
+]
+for _k, _cs in enumerate(CORPUS):
+    _cs.update({"kind": "multi", "corpus": _k})
+
+
+def multi_src_value(src, slots, clocks):
+    if "slot" in src:
+        return slots[src["slot"]]["v"]
+    if "from" in src:
+        return clocks[src["from"]]
+    return int(src["v"])
+
+
+def multi_line(case):
+    """tokens of the model run; values written from kept tensors are literals (the tensors never change), values
+    written from another system are `afrom/rfrom/reffrom` (the model copies the value that clock has then)"""
+    toks = []
+    for e in case["events"]:
+        sidx, ev = e["s"], e["ev"]
+        kind = case["systems"][sidx]
+        if ev == "call":
+            toks.append(f"{sidx}:call")
+        elif ev == "xraise":
+            toks.append(f"{sidx}:raise")
+        elif e["t"] is None:
+            toks.append(f"{sidx}:reset=0:0")
+        else:
+            src = e["t"]
+            word = {"assign": "assign", "reset": "reset", "ref": "ref"}[ev]
+            if "from" in src:
+                toks.append(f"{sidx}:" + {"assign": "afrom", "reset": "rfrom", "ref": "reffrom"}[ev] + f"={src['from']}")
+            elif "slot" in src:
+                sl = case["slots"][src["slot"]]
+                if sl["shape"] == 1 and (ev != "ref" or kind == "ltv"):
+                    toks.append(f"{sidx}:raise")         # copy_/fill_ of a shape-(1,) tensor into the 0-dim buffer raises
+                else:
+                    toks.append(f"{sidx}:{word}=" + to_wire(sl["v"]))
+            else:
+                toks.append(f"{sidx}:{word}=" + to_wire(src["v"]))
+    return f"c15.mclock {len(case['systems'])} " + " ".join(case["systems"]) + " " + " ".join(toks)
+
+
+def run_multi_impl(ctx: Ctx, case):
+    """observed clocks of all systems after every event (None if the observation was abandoned after a failure)"""
+    P = pp()
+    n = len(case["systems"])
+    syss = [make_simple(P, k) for k in case["systems"]]
+    slots = [torch.tensor(sl["v"] if sl["shape"] == 0 else [sl["v"]], dtype=torch.int64) for sl in case["slots"]]
+    keeps = [t.clone() for t in slots]
+    x, u = torch.tensor([1.5]), torch.tensor([0.25])
+    clocks, obs = [0] * n, []
+    for i, e in enumerate(case["events"]):
+        sidx, ev = e["s"], e["ev"]
+        kind, sys_ = case["systems"][sidx], syss[sidx]
+        expect, alt = list(clocks), None
+        raised = None
+        try:
+            if ev == "call":
+                sys_(x, u)
+                expect[sidx] += 1
+            elif ev == "xraise":
+                try:
+                    sys_(torch.ones(2, 3, 4), torch.ones(5)) if kind != "nls" else sys_(torch.ones(2), torch.ones(3))
+                except Exception:
+                    pass
+            elif e["t"] is None:
+                sys_.reset()
+                expect[sidx] = 0
+            else:
+                src = e["t"]
+                val = multi_src_value(src, case["slots"], clocks)
+                bad_shape = "slot" in src and case["slots"][src["slot"]]["shape"] == 1
+                if "slot" in src:
+                    tv = slots[src["slot"]]
+                elif "from" in src:
+                    tv = syss[src["from"]].systime            # the other system's clock object itself
+                else:
+                    tv = mk_time(src)
+                sets = ev in ("assign", "reset") or kind == "ltv"
+                try:
+                    if ev == "assign":
+                        sys_.systime = tv
+                    elif ev == "reset":
+                        sys_.reset(tv)
+                    elif kind == "nls":
+                        sys_.set_refpoint(state=x, input=u, t=torch.as_tensor(tv))
+                    else:
+                        sys_.set_refpoint(t=torch.as_tensor(tv))
+                except Exception as ex:
+                    raised = ex
+                if raised is None and sets:
+                    expect[sidx] = val
+                if raised is not None and not (bad_shape and sets):
+                    ctx.fail({**pub(case), "at": i}, f"clock-raises: event {i} ({ev} on system {sidx} from {src}) raised {type(raised).__name__}: {str(raised)[:100]}")
+                    return None
+        except Exception as ex:
+            ctx.fail({**pub(case), "at": i}, f"clock-raises: event {i} ({ev} on system {sidx}) raised {type(ex).__name__}: {str(ex)[:100]}")
+            return None
+        now = []
+        for j in range(n):
+            cj = safe_clock(ctx, case, syss[j], i, f"{ev} on system {sidx}; reading system {j}")
+            if cj is None:
+                return None
+            now.append(cj)
+        for j in range(n):
+            if now[j] != expect[j]:
+                if j == sidx:
+                    ctx.fail({**pub(case), "at": i}, f"clock-law: after event {i} ({ev} on system {sidx}, source {e.get('t')}) its systime is {now[j]}, the law gives {expect[j]} (clocks before: {clocks})")
+                else:
+                    ctx.fail({**pub(case), "at": i}, f"clock-shared: event {i} ({ev} on system {sidx}) changed the time of system {j} from {clocks[j]} to {now[j]}; "
+                                                     f"every system owns its clock (clocks before: {clocks})")
+                return None
+        for k_, (t_, kp) in enumerate(zip(slots, keeps)):
+            if t_.shape != kp.shape or t_.dtype != kp.dtype or not torch.equal(t_, kp):
+                ctx.fail({**pub(case), "at": i}, f"mutation: the caller's time tensor (slot {k_}, value {kp.tolist()}) was changed to {t_.tolist()} by event {i} ({ev} on system {sidx})")
+                return None
+        clocks = now
+        obs.append(list(now))
+    return obs
+
+
+def run_multi(ctx: Ctx, cases):
+    lines = [multi_line(c) for c in cases]
+    reps = ctx.driver.run(lines)
+    for case, rep in zip(cases, reps):
+        st, toks = common.parse_reply(rep)
+        if st != "ok":
+            raise common.InfraError(f"model error on mclock line: {rep}")
+        n = len(case["systems"])
+        flat = [int(t) for t in toks]
+        want = [flat[k_ * n:(k_ + 1) * n] for k_ in range(len(case["events"]))]
+        got = guarded(ctx, case, run_multi_impl)
+        ctx.note_case(("multi", tuple(case["systems"]), tuple((sl["v"], sl["shape"]) for sl in case["slots"]),
+                       "".join(f"{e['s']}{e['ev'][0]}" for e in case["events"])), any(e["ev"] == "call" for e in case["events"]))
+        for e in case["events"]:
+            src = e.get("t")
+            ctx.count("multi." + e["ev"] + ("" if not isinstance(src, dict) else (".slot" if "slot" in src else (".from" if "from" in src else ".literal"))))
+        if got is None:
+            continue
+        if got != want:
+            j = next(i for i, (a, b) in enumerate(zip(got, want)) if a != b)
+            ctx.disagree("multi", pub(case), f"after event {j} ({case['events'][j]}) implementation clocks {got[j]} model {want[j]}")
+    if cases:
+        ctx.sample({"stream": "multi", "systems": cases[-1]["systems"], "slots": cases[-1]["slots"], "events": cases[-1]["events"][:6]})
 
 
 # ============================================================================= stream: lin (LTI / LTV)
@@ -1449,7 +1695,7 @@ def run_bmv(ctx: Ctx, cases):
 
 # ============================================================================= driver
 
-GEN = {"clock": gen_clock_case, "lin": gen_lin_case, "nls": gen_nls_case, "bmv": gen_bmv_case}
+GEN = {"clock": gen_clock_case, "multi": gen_multi_case, "lin": gen_lin_case, "nls": gen_nls_case, "bmv": gen_bmv_case}
 
 
 def run(ctx: Ctx):
@@ -1459,7 +1705,9 @@ def run(ctx: Ctx):
     torch.set_num_threads(2)
     q = ctx.quick
     seeds = lambda n: [rng.randrange(1 << 40) for _ in range(n)]
+    run_multi(ctx, [dict(c) for c in CORPUS])                       # deterministic corpus first
     run_clock(ctx, [gen_clock_case(s, q) for s in seeds(ctx.pick(600, 8000))])
+    run_multi(ctx, [gen_multi_case(s, q) for s in seeds(ctx.pick(400, 6000))])
     run_lin(ctx, [gen_lin_case(s, q) for s in seeds(ctx.pick(700, 12000))])
     run_bmv(ctx, [gen_bmv_case(s, q) for s in seeds(ctx.pick(300, 6000))])
     run_nls(ctx, [gen_nls_case(s, q) for s in seeds(ctx.pick(650, 12000))], ctx.pick(700, 14000))
@@ -1472,6 +1720,7 @@ def search(ctx: Ctx):
     for rnd in range(6):
         n0 = len(ctx.failures)
         run_clock(ctx, [gen_clock_case(rng.randrange(1 << 40), False) for _ in range(60)])
+        run_multi(ctx, [dict(c) for c in CORPUS] + [gen_multi_case(rng.randrange(1 << 40), False) for _ in range(80)])
         run_lin(ctx, [gen_lin_case(rng.randrange(1 << 40), False) for _ in range(100)])
         run_bmv(ctx, [gen_bmv_case(rng.randrange(1 << 40), False) for _ in range(80)])
         run_nls(ctx, [gen_nls_case(rng.randrange(1 << 40), False) for _ in range(80)], 200)
@@ -1483,9 +1732,11 @@ def replay(ctx: Ctx, case) -> bool:
     c = case["case"]
     kind = c.get("kind")
     n0, d0, k0 = len(ctx.failures), len(ctx.disagreements), len(ctx.known_hits)
-    full = GEN[kind](c["seed"], True)     # cases are functions of their sub-seed
+    full = dict(CORPUS[c["corpus"]]) if "corpus" in c else GEN[kind](c["seed"], True)     # cases are functions of their sub-seed
     if kind == "clock":
         run_clock(ctx, [full])
+    elif kind == "multi":
+        run_multi(ctx, [full])
     elif kind == "lin":
         run_lin(ctx, [full])
     elif kind == "bmv":
